@@ -2452,7 +2452,10 @@ Note that if the receiver is in an invalid state, or has a zero length,
 nothing will be removed.
 */
 func (r Stack) Pop() (popped any, ok bool) {
-	if !r.IsEmpty() {
+	// emptiness is judged by pop, under the lock: a
+	// lock-free IsEmpty here can observe the transient
+	// state of a concurrent (locked) FIFO pop.
+	if r.IsInit() {
 		if !r.getState(ronly) {
 			popped, ok = r.stack.pop()
 		}
@@ -2538,7 +2541,9 @@ Reverse shall re-order the receiver's current slices in a sequence that is the p
 of the original.
 */
 func (r Stack) Reverse() Stack {
-	if !r.IsEmpty() {
+	// (see Pop regarding lock-free emptiness tests;
+	// reversing an empty stack is a no-op anyway)
+	if r.IsInit() {
 		if !r.getState(ronly) {
 			r.stack.reverse()
 		}
